@@ -270,89 +270,30 @@ def rules(ctx):
             ctx.inst('R01.4', fn, n, ok,
                      "table records (%s, %s) -> %s" % (x, y, z) if ok else
                      "reduction table entry %s does not record the gadget's pair/ancilla" % src(n))
-        # key rebuild: the for loop directly in the while body that re-adds labels to K
-        rebuild = None
+        # key rebuild: inline in the loop body, or extracted into a helper `K = helper(K, x, y, z)`
+        site = None
         for n in W.body:
             if isinstance(n, ast.For) and K and any(
                     isinstance(m, ast.AugAssign) and src(m.target) == K for m in ast.walk(n)):
-                rebuild = n
-        if rebuild is None:
-            raise AnalysisError("_reduce_degree: key rebuild loop not recognised (for i in old_key ... key += ...)")
-        # the pair removed by the rebuild is read from its membership test
-        rp = None
-        for m in ast.walk(rebuild):
-            if isinstance(m, ast.Compare) and len(m.ops) == 1 and isinstance(m.ops[0], (ast.In, ast.NotIn)) \
-                    and src(m.left) == src(rebuild.target) and isinstance(m.comparators[0], (ast.Tuple, ast.Set, ast.List)):
-                rp = [src(e) for e in m.comparators[0].elts]
-        okpair = rp is not None and sorted(rp) == sorted([x, y])
-        ctx.inst('R01.4', fn, rebuild, okpair,
-                 "rebuild removes exactly the gadget's pair (%s, %s)" % (x, y) if okpair else
-                 "key rebuild removes %s but the gadget constrains the ancilla to the pair (%s, %s)" % (rp, x, y))
-        if rp is not None and len(rp) == 2:
-            x, y = rp
-        it = src(rebuild.target)
-        # old key variable must be the loop key before reset
-        gb = g
-        paths = g.iteration_paths(rebuild)
-        n_paths = 0
-        for path in paths:
-            n_paths += 1
-            facts, adds = [], []
-            for node, lab in path:
-                if lab and lab[0] != 'iter' and lab[0] != 'exc':
-                    facts += compare_atoms(lab[0], lab[1])
-                if isinstance(node, ast.AugAssign) and src(node.target) == K and isinstance(node.op, ast.Add):
-                    adds.append(node)
-            is_pair = (it, 'in', '(%s, %s)' % (x, y)) in facts or (it, 'in', '(%s, %s)' % (y, x)) in facts
-            not_pair = (it, 'not in', '(%s, %s)' % (x, y)) in facts or (it, 'not in', '(%s, %s)' % (y, x)) in facts
-            elts = []
-            for a in adds:
-                if isinstance(a.value, ast.Tuple):
-                    elts += [src(e) for e in a.value.elts]
-                else:
-                    elts.append('?' + src(a.value))
-            if is_pair:
-                ok = it not in elts
-                ctx.inst('R01.4', fn, 'rebuild path [%s in pair] adds %s' % (it, elts), ok,
-                         "a label of the reduced pair is dropped from the key" if ok else
-                         "a label of the reduced pair is kept in the key")
-            elif not_pair:
-                ok = elts.count(it) == 1 and all(e in (it, z) for e in elts)
-                ctx.inst('R01.4', fn, 'rebuild path [%s not in pair] adds %s' % (it, elts), ok,
-                         "every other label is kept exactly once" if ok else
-                         "on a path where `%s` is not in the reduced pair the rebuilt key gets %s: the label "
-                         "is lost or foreign labels enter" % (it, elts))
-            else:
-                ctx.inst('R01.4', fn, 'rebuild path adds %s' % elts, False,
-                         "rebuild path not decided by membership of `%s` in the pair" % it)
-        if not n_paths:
-            raise AnalysisError("_reduce_degree: no paths through the key rebuild loop")
-        # z inserted after the loop if not inserted inside
-        post = [n for n in W.body if isinstance(n, ast.If) and any(
-            isinstance(m, ast.AugAssign) and src(m.target) == K and src(m.value) == '(%s,)' % z for m in n.body)]
-        flags = [f for f in compare_atoms(post[0].test, True)] if post else []
-        okp = bool(post) and len(flags) == 1 and flags[0][0] == 'falsy'
-        flag = flags[0][1] if okp else None
-        if okp:
-            # inside the loop: every add of z sets the flag in the same block and is guarded by `not flag`
-            for m in ast.walk(rebuild):
-                if isinstance(m, ast.AugAssign) and src(m.target) == K and isinstance(m.value, ast.Tuple) \
-                        and z in [src(e) for e in m.value.elts]:
-                    blk = parent(m)
-                    sets = [q for q in getattr(blk, 'body', []) + getattr(blk, 'orelse', [])
-                            if isinstance(q, ast.Assign) and src(q.targets[0]) == flag and is_const(q.value, True)]
-                    fcts = []
-                    for t, pol, o in cfg_of(fn.node).edge_dominators(m):
-                        fcts += compare_atoms(t, pol)
-                    okp = okp and bool(sets) and ('falsy', flag) in fcts
-        ctx.inst('R01.4', fn, post[0] if post else 'append of the ancilla', okp,
-                 "ancilla inserted exactly once (flag %s)" % flag if okp else
-                 "the ancilla is not inserted exactly once into the rebuilt key")
-        # key reset: key = () and old key saved before
-        resets = [n for n in W.body if isinstance(n, ast.Assign) and K in
-                  {src(t) for tt in n.targets for t in (tt.elts if isinstance(tt, ast.Tuple) else [tt])}]
-        ctx.inst('R01.4', fn, resets[0] if resets else 'key reset', bool(resets) and src(rebuild.iter) != K,
-                 "rebuild iterates the saved old key")
+                site = ('inline', fn, W.body, K, x, y, z)
+        if site is None:
+            for n in W.body:
+                if isinstance(n, ast.Assign) and len(n.targets) == 1 and src(n.targets[0]) == K and isinstance(n.value, ast.Call):
+                    tg = [t for t, r_, h in R.resolve_call(n.value, fn, 'PUBO') if isinstance(t, FuncInfo)]
+                    if len(tg) == 1:
+                        h = tg[0]
+                        from ..astutil import bind_args
+                        b_ = bind_args(n.value, h, skip_self=bool(h.cls) and not h.is_static)
+                        inv = {src(v_): p_ for p_, v_ in b_.items() if isinstance(v_, ast.AST)}
+                        if all(q in inv for q in (K, x, y, z)):
+                            rets = [r_ for r_ in walk_no_nested(strip_docstring(h.node.body)) if isinstance(r_, ast.Return)]
+                            if len(rets) == 1 and isinstance(rets[0].value, ast.Name):
+                                site = ('helper', h, strip_docstring(h.node.body), rets[0].value.id, inv[x], inv[y], inv[z])
+                                ctx.inst('R01.4', fn, n, True, "key rebuilt by helper %s(%s)" % (h.qual, ', '.join(src(a) for a in n.value.args)))
+        if site is None:
+            raise AnalysisError("_reduce_degree: key rebuild not recognised (neither an inline `for ... key += ...` loop "
+                                "nor `key = helper(key, x, y, z)`)")
+        rebuild_rules(ctx, *site[1:])
 
     # ---------------------------------------------------------------- R01.10
     for gs, call in gadget_stmts[:1]:
@@ -645,3 +586,96 @@ def _mapped_key_expr(e, selfn):
             if src(n.elt) == '%s._mapping[%s]' % (selfn, t) and not n.generators[0].ifs:
                 return True
     return False
+
+
+def rebuild_rules(ctx, fn, stmts, K, x, y, z):
+    """R01.4 for the key rebuild: `stmts` hold the reset of the accumulator K, the loop over the old key and the
+    final insertion; (x, y) is the reduced pair and z the ancilla (names valid inside `stmts`)."""
+    g = cfg_of(fn.node)
+
+    class _W:           # adapter so that the original code can say W.body
+        body = stmts
+    W = _W
+    rebuild = None
+    for n in W.body:
+        if isinstance(n, ast.For) and K and any(
+                isinstance(m, ast.AugAssign) and src(m.target) == K for m in ast.walk(n)):
+            rebuild = n
+    if rebuild is None:
+        raise AnalysisError("_reduce_degree: key rebuild loop not recognised (for i in old_key ... key += ...)")
+    # the pair removed by the rebuild is read from its membership test
+    rp = None
+    for m in ast.walk(rebuild):
+        if isinstance(m, ast.Compare) and len(m.ops) == 1 and isinstance(m.ops[0], (ast.In, ast.NotIn)) \
+                and src(m.left) == src(rebuild.target) and isinstance(m.comparators[0], (ast.Tuple, ast.Set, ast.List)):
+            rp = [src(e) for e in m.comparators[0].elts]
+    okpair = rp is not None and sorted(rp) == sorted([x, y])
+    ctx.inst('R01.4', fn, rebuild, okpair,
+             "rebuild removes exactly the gadget's pair (%s, %s)" % (x, y) if okpair else
+             "key rebuild removes %s but the gadget constrains the ancilla to the pair (%s, %s)" % (rp, x, y))
+    if rp is not None and len(rp) == 2:
+        x, y = rp
+    it = src(rebuild.target)
+    # old key variable must be the loop key before reset
+    gb = g
+    paths = g.iteration_paths(rebuild)
+    n_paths = 0
+    for path in paths:
+        n_paths += 1
+        facts, adds = [], []
+        for node, lab in path:
+            if lab and lab[0] != 'iter' and lab[0] != 'exc':
+                facts += compare_atoms(lab[0], lab[1])
+            if isinstance(node, ast.AugAssign) and src(node.target) == K and isinstance(node.op, ast.Add):
+                adds.append(node)
+        is_pair = (it, 'in', '(%s, %s)' % (x, y)) in facts or (it, 'in', '(%s, %s)' % (y, x)) in facts
+        not_pair = (it, 'not in', '(%s, %s)' % (x, y)) in facts or (it, 'not in', '(%s, %s)' % (y, x)) in facts
+        elts = []
+        for a in adds:
+            if isinstance(a.value, ast.Tuple):
+                elts += [src(e) for e in a.value.elts]
+            else:
+                elts.append('?' + src(a.value))
+        if is_pair:
+            ok = it not in elts
+            ctx.inst('R01.4', fn, 'rebuild path [%s in pair] adds %s' % (it, elts), ok,
+                     "a label of the reduced pair is dropped from the key" if ok else
+                     "a label of the reduced pair is kept in the key")
+        elif not_pair:
+            ok = elts.count(it) == 1 and all(e in (it, z) for e in elts)
+            ctx.inst('R01.4', fn, 'rebuild path [%s not in pair] adds %s' % (it, elts), ok,
+                     "every other label is kept exactly once" if ok else
+                     "on a path where `%s` is not in the reduced pair the rebuilt key gets %s: the label "
+                     "is lost or foreign labels enter" % (it, elts))
+        else:
+            ctx.inst('R01.4', fn, 'rebuild path adds %s' % elts, False,
+                     "rebuild path not decided by membership of `%s` in the pair" % it)
+    if not n_paths:
+        raise AnalysisError("_reduce_degree: no paths through the key rebuild loop")
+    # z inserted after the loop if not inserted inside
+    post = [n for n in W.body if isinstance(n, ast.If) and any(
+        isinstance(m, ast.AugAssign) and src(m.target) == K and src(m.value) == '(%s,)' % z for m in n.body)]
+    flags = [f for f in compare_atoms(post[0].test, True)] if post else []
+    okp = bool(post) and len(flags) == 1 and flags[0][0] == 'falsy'
+    flag = flags[0][1] if okp else None
+    if okp:
+        # inside the loop: every add of z sets the flag in the same block and is guarded by `not flag`
+        for m in ast.walk(rebuild):
+            if isinstance(m, ast.AugAssign) and src(m.target) == K and isinstance(m.value, ast.Tuple) \
+                    and z in [src(e) for e in m.value.elts]:
+                blk = parent(m)
+                sets = [q for q in getattr(blk, 'body', []) + getattr(blk, 'orelse', [])
+                        if isinstance(q, ast.Assign) and src(q.targets[0]) == flag and is_const(q.value, True)]
+                fcts = []
+                for t, pol, o in cfg_of(fn.node).edge_dominators(m):
+                    fcts += compare_atoms(t, pol)
+                okp = okp and bool(sets) and ('falsy', flag) in fcts
+    ctx.inst('R01.4', fn, post[0] if post else 'append of the ancilla', okp,
+             "ancilla inserted exactly once (flag %s)" % flag if okp else
+             "the ancilla is not inserted exactly once into the rebuilt key")
+    # key reset: key = () and old key saved before
+    resets = [n for n in W.body if isinstance(n, ast.Assign) and K in
+              {src(t) for tt in n.targets for t in (tt.elts if isinstance(tt, ast.Tuple) else [tt])}]
+    ctx.inst('R01.4', fn, resets[0] if resets else 'key reset', bool(resets) and src(rebuild.iter) != K,
+             "rebuild iterates the saved old key")
+
